@@ -268,7 +268,8 @@ fn dimensions() -> Vec<(&'static str, Vec<Mod>, Vec<Mod>)> {
     // payload
     // sizes, and contents that the other protocol analyzers of the unified pipeline react to (an unfinished TLS record, a
     // complete non-hello record, the HTTP/2 preface, unfinished HTTP/1 heads): the TCP rendering must not depend on them
-    let mut pay_full: Vec<Mod> = [0usize, 1, 1460].iter().map(|&n| m(move |s| s.payload = vec![b'a'; n])).collect();
+    // (lengths whose low byte is zero: a class taken from a narrowed length would read them as empty)
+    let mut pay_full: Vec<Mod> = [0usize, 1, 255, 256, 257, 512, 1024, 1460, 4096, 8192].iter().map(|&n| m(move |s| s.payload = vec![b'a'; n])).collect();
     for content in [
         vec![0x16u8, 3, 1, 2, 0, 1, 0, 1, 0xfc, 3, 3, 7, 7, 7, 7, 7, 7, 7, 7],
         vec![0x16, 3, 3, 0, 4, 14, 0, 0, 0],
